@@ -177,6 +177,19 @@ def run_case(case):
             r.viol("raises", "spline %s %s raises on an in-domain grid" % (fam, direction), exc=repr(e)[:200],
                    exc_type=type(e).__name__, box=bx, B=case.get("B"), bins=K, pscale=ps, world=case["world"])
             continue
+        # the same grid stored column-major (a dense, non-contiguous tensor as produced by `.T`): same function
+        try:
+            y2, lad2 = call(x.t().contiguous().t(), inv)
+            r.count("layout_rows", n)
+            same = torch.isfinite(y) & torch.isfinite(lad)
+            tol_l = 64 * eps * (1 + y.abs())
+            if y2.shape != y.shape or bool(((y2 - y).abs() > tol_l)[same].any()) or bool(((lad2 - lad).abs() > 1e-6 * (1 + lad.abs()))[same].any()):
+                r.viol("layout", "spline %s gives other values for a column-major input tensor" % fam, direction=direction, box=bx,
+                       B=case.get("B"), bins=K, pscale=ps, world=case["world"],
+                       max_diff=float((y2 - y).abs()[same].max()) if y2.shape == y.shape and same.any() else None)
+        except Exception as e:
+            r.viol("raises", "spline %s %s raises on a column-major input tensor" % (fam, direction), exc=repr(e)[:200],
+                   exc_type=type(e).__name__, box=bx, B=case.get("B"), bins=K, pscale=ps, world=case["world"])
         r.ev(n)
         r.count("grid_rows", n)
         r.count("knot_neighbourhoods", n * kn.shape[1])
